@@ -55,6 +55,18 @@ type mctx struct {
 }
 
 func (m *mctx) setOpt(n string, v interface{}) error {
+	// a topic given as a byte slice stays the caller's buffer: it is overwritten as soon as the
+	// call has returned, and the subscription must not change with it
+	var scratch []byte
+	if b, ok := v.([]byte); ok {
+		scratch = append([]byte{}, b...)
+		v = scratch
+	}
+	defer func() {
+		for i := range scratch {
+			scratch[i] ^= 0x5a
+		}
+	}()
 	if m.c != nil {
 		return m.c.SetOption(n, v)
 	}
